@@ -157,16 +157,25 @@ func goTypeFor(s node, v goVariant, depth int) (reflect.Type, error) {
 	case "string":
 		return wrapPtr(reflect.TypeOf("")), nil
 	case "fixed":
+		if n := nodeInt(s, "size"); n < 0 || n > 1<<20 {
+			return nil, errNoTarget
+		}
 		return reflect.ArrayOf(nodeInt(s, "size"), reflect.TypeOf(byte(0))), nil
 	case "enum":
 		return nil, errNoTarget
 	case "array":
+		if len(kids) == 0 {
+			return nil, errNoTarget
+		}
 		e, err := goTypeFor(kids[0], v, depth+1)
 		if err != nil {
 			return nil, err
 		}
 		return reflect.SliceOf(e), nil
 	case "map":
+		if len(kids) == 0 {
+			return nil, errNoTarget
+		}
 		e, err := goTypeFor(kids[0], v, depth+1)
 		if err != nil {
 			return nil, err
@@ -209,6 +218,9 @@ func goTypeFor(s node, v goVariant, depth int) (reflect.Type, error) {
 	case "record":
 		fields := make([]reflect.StructField, len(kids))
 		for i, f := range kids {
+			if len(nodeKids(f)) == 0 {
+				return nil, errNoTarget
+			}
 			ft, err := goTypeFor(nodeKids(f)[0], v, depth+1)
 			if err != nil {
 				return nil, err
@@ -222,4 +234,38 @@ func goTypeFor(s node, v goVariant, depth int) (reflect.Type, error) {
 		return t, nil
 	}
 	return nil, errNoTarget
+}
+
+// zeroSizeSchema: can a datum of this schema encode to zero bytes?
+func zeroSizeSchema(s node) bool {
+	switch nodeStr(s, "k") {
+	case "null":
+		return true
+	case "fixed":
+		return nodeInt(s, "size") == 0
+	case "record":
+		for _, f := range nodeKids(s) {
+			k := nodeKids(f)
+			if len(k) == 0 || !zeroSizeSchema(k[0]) {
+				return false
+			}
+		}
+		return true
+	}
+	return false
+}
+
+// hasZeroSizeItems: does the schema contain an array whose items can be zero bytes long
+// (the declared count of such an array is not bounded by the input size)?
+func hasZeroSizeItems(s node) bool {
+	kids := nodeKids(s)
+	if nodeStr(s, "k") == "array" && len(kids) == 1 && zeroSizeSchema(kids[0]) {
+		return true
+	}
+	for _, k := range kids {
+		if hasZeroSizeItems(k) {
+			return true
+		}
+	}
+	return false
 }
